@@ -51,7 +51,7 @@ int main(int argc, char** argv) {
             if (rc != RC_OK) { TR.emit("{\"e\":\"Stuck\",\"rc\":\"%s\"}", rc_name(rc).c_str()); ++st->stuck; return; }
             S.join_all();                                  // workers are run on until they have left the arena and sleep
             TR.emit("{\"e\":\"Quiesce\"}");
-        });
+        }, &s);
     }
     fclose(out);
     printf("{\"paths\":%ld,\"steps\":%ld,\"stuck\":%ld,\"crashed\":%ld,\"workers\":%ld,\"wall\":%.2f}\n", st->paths, st->steps, st->stuck, crashed, st->workers, tm.s());
